@@ -219,6 +219,14 @@ def _run_isolated(args, nproc, limits):
                     if os.path.exists(path):
                         with open(path, "rb") as f:
                             outs.append(pickle.load(f))
+                        # seed sweeps only (VERIF_STOP_ON_VIOLATION=1): a replay-confirmed violation ends the run early
+                        if os.environ.get("VERIF_STOP_ON_VIOLATION") and outs[-1].get("confirmed"):
+                            pending = []
+                            for j in list(running):
+                                if j != i:
+                                    running[j][0].kill()
+                                    running[j][0].join()
+                                    del running[j]
                     else:
                         outs.append(dict(job=a[1], crashed="worker process died (exit code %s)" % p.exitcode))
                     del running[i]
